@@ -224,6 +224,11 @@ func (c *VCtx) checkAccess(fr *Frame, st *State, l *Loc, write bool, pos token.P
 	}
 	desc := fmt.Sprintf("%s of %s at %s is protected (%s)", what, l.Heap[2:], c.eng.pos(pos), p.kind)
 	kind := "own." + l.Heap[2:]
+	if write && p.kind == "guarded" && c.top != nil {
+		hn := "G:writes:" + l.Heap
+		h := c.heap(st, hn, ArrSort(SRef, SInt))
+		c.setHeap(st, hn, Store(h, l.Base, Add(Select(h, l.Base), IntLit(1))))
+	}
 	switch p.kind {
 	case "guarded":
 		if isFreshRef(l.Base) {
@@ -418,6 +423,14 @@ func (c *VCtx) acquire(fr *Frame, st *State, lock *Term, write bool, pos token.P
 		for _, inv := range m.spec.Invs {
 			c.fact(Implies(st.pc, c.translateBool(sc, inv.E)))
 		}
+	}
+	// the global invariants hold for the state just observed (they talk about the guarded fields havocked above)
+	for _, g := range c.globalClauses() {
+		if !g.trans {
+			c.fact(Implies(st.pc, c.translateBool(c.globalScope(g.pkg, st, nil), g.cl.E)))
+		}
+	}
+	for _, m := range h.specs {
 		m.entry = st.clone()
 	}
 }
@@ -457,6 +470,8 @@ func (c *VCtx) release(fr *Frame, st *State, lock *Term, pos token.Pos) {
 		c.assertGlobal(st, h.specs[0].entry, fmt.Sprintf("cs%d", c.csCount))
 	}
 	delete(st.held, lock.S)
+	c.heapSorts["G:lastcs"] = SInt
+	st.heaps["G:lastcs"] = c.now(st)
 }
 
 // proveP is prove with extra property tags (the object's properties).
